@@ -23,7 +23,8 @@ SUBST = ["$(printf 'p q')", "`printf 'p q'`", "$(printf '%s\\n' p q)", "$((1+2))
 BRACE = ["{a,b}", "{1..3}", "pre{x,y}post", "{a,b}{c,d}", "{a,b,}", "{x}", "{3..1}", "{a..c}",
          # sequences with a step (ascending / descending, step dividing the distance or not, letters and numbers, negative bounds)
          "{f..a..2}", "{h..a..3}", "{a..h..3}", "{a..f..2}", "{z..v..2}", "{10..1..3}", "{1..10..4}", "{-5..5..3}", "{5..-5..4}", "{1..7..-2}", "{g..a..3}",
-         "{a,{f..c..2}}", "{1..3}{a..b}", "{c..a}", "{2..2}", "{a..a..3}"]
+         "{a,{f..c..2}}", "{1..3}{a..b}", "{c..a}", "{2..2}", "{a..a..3}",
+         "{1..10..02}"]         # (zero-padded *bounds* such as {01..10} are open finding C05-F8: the padding is dropped)
 TILDE = ["~", "~+", "~/x", "~nosuchuser"]
 DEFAULTS = ["${v:-w x}", "${v:+w x}", "${u:-$v}", "${u:-\"w x\"}", "${u:-'w x'}", "${u-*}", "${v:+\"$v\"}", "${u:-{a,b}}", "${u:-~}"]
 PIECES = {"lit": LIT, "quoted": QUOTED, "var": VARS, "subst": SUBST, "brace": BRACE, "tilde": TILDE, "default": DEFAULTS}
